@@ -253,16 +253,20 @@ class SingularityCutter(Worker):
             # Heuristic for distance between two faces
             return distance(barycenters[f1], barycenters[f2])
 
+        # Crossing an edge of the singularity spanning tree costs more than any path that avoids these edges:
+        # it only happens when the tree (together with the border) separates the faces, so that the dual tree always spans the mesh
+        penalty = 1. + sum(face_distance(*self.input_mesh.connectivity.edge_to_faces(*self.input_mesh.edges[e])) for e in self.input_mesh.interior_edges)
+
         while not queue.empty():
             iF = queue.get().x
             if fvisited[iF] : continue
             fvisited[iF] = True                
             for e in self.input_mesh.connectivity.face_to_edges(iF):
                 v1,v2 = self.input_mesh.edges[e]
-                if forbidden_edges[e] : continue # edge is on the singularity spanning tree
                 iF2 = self.input_mesh.connectivity.opposite_face(v1,v2,iF)
                 if iF2 is not None: 
                     d = face_distance(iF,iF2)
+                    if forbidden_edges[e] : d += penalty # edge is on the singularity spanning tree
                     if dist[iF2] > dist[iF] + d :
                         dist[iF2] = dist[iF] + d
                         path[iF2] = e
@@ -287,19 +291,23 @@ class SingularityCutter(Worker):
             # Heuristic for distance between two faces
             return distance(barycenters[f1], barycenters[f2])
 
+        # Crossing an edge of the singularity spanning tree costs more than any path that avoids these edges:
+        # it only happens when the tree (together with the border) separates the faces, so that the dual tree always spans the mesh
+        penalty = 1. + sum(face_distance(*self.input_mesh.connectivity.edge_to_faces(*self.input_mesh.edges[e])) for e in self.input_mesh.interior_edges)
+
         while not queue.empty():
             iF = queue.get().x
             if fvisited[iF] : continue
             fvisited[iF] = True        
             for e in self.input_mesh.connectivity.face_to_edges(iF):
                 v1,v2 = self.input_mesh.edges[e]
-                if forbidden_edges[e] : continue # edge is on the singularity spanning tree
                 iF2 = self.input_mesh.connectivity.opposite_face(v1,v2,iF)
                 if iF2 is not None:
                     u,v = set(self.input_mesh.faces[iF]) & set(self.input_mesh.faces[iF2])
                     blocked = self.input_mesh.connectivity.edge_id(u,v) in self.feat_detector.feature_edges and regions.connected(iF,iF2)
                     if not blocked:
                         d = face_distance(iF,iF2)
+                        if forbidden_edges[e] : d += penalty # edge is on the singularity spanning tree
                         if dist[iF2] > dist[iF] + d :
                             dist[iF2] = dist[iF] + d
                             path[iF2] = e
